@@ -66,7 +66,7 @@ func (f *Dox) Call(s *slip.Scope, args slip.List, depth int) (result slip.Object
 	d2 := depth + 1
 	steps, test, rforms, ns := setupDo(ns, ns, args, d2)
 	for {
-		if ns.Eval(test, d2) != nil {
+		if firstValue(ns.Eval(test, d2)) != nil {
 			for _, rf := range rforms {
 				result = ns.Eval(rf, d2)
 			}
